@@ -5,11 +5,18 @@ M: TLC checks HAdd over the whole case table of local environments (centre x cha
    ValenceComplete; twelve named deviations must each violate their clause.
 A: the edges TLC emits for that table (Build -> AddH -> AddH) are replayed on real Molecules, one real local
    environment per row; outcome, structure and placement classes must equal the edge's.
+H: molecules with a HISTORY.  TLC enumerates Build -> Query* -> Rewire (del_bond + connect: same number of bonds)
+   -> Query* -> AddH -> AddH on a small table, with the hidden "an accessor was used" flag in the state; every
+   (state, action) pair is replayed on real Molecules.  Seeded random histories (accessor calls, 1-3 public edits
+   favouring those that keep the bond count: re-wire, endpoint re-pointed in place, del+append, leaf atom replaced,
+   remove_substituent; then two calls; then a hydrogen replaced by a carbon and two more calls) are trace-validated:
+   the accessor answers and the hydrogens must follow the CURRENT graph (re-read through m.atoms / m.bonds).
 B: the same executions + seeded random 3-D molecules (Molecule and Structure) + every bundled CDXML fragment
    are recorded as traces (molecule before, molecule after, measured placement of each new atom) and
    validated by TLC against HAdd (HAddTrace)."""
 from __future__ import annotations
-import json, time, warnings
+import json, random, time, warnings
+import numpy as np
 from concurrent.futures import ThreadPoolExecutor
 from ..common import Reporter, model_check, expect_violation
 from ..evidence import Evidence
@@ -32,19 +39,21 @@ DEVIATIONS = (("DevChargeSign", "CountRule"), ("DevSpinIgnored", "CountRule"), (
               ("DevOffByOne", "CountRule"), ("DevHintIgnored", "CountRule"), ("DevNoFourH", "CountRule"),
               ("DevToward", "PlacedRight"), ("DevNaN", "PlacedRight"), ("DevLength", "PlacedRight"),
               ("DevOrderZero", "Idempotent"), ("DevTwice", "BondedOnceToCentre"), ("DevShift", "OnlyHydrogensAdded"))
-DROP = ("out", "n", "hs", "cls")
+DROP = ("out", "n", "hs", "cls", "nb", "bv2")
 
 
-def mc_cfg(envs, dev="DevNone", only=None):
-    inv, props = INV, PROPS
+def mc_cfg(envs, dev="DevNone", only=None, edit=False):
+    inv, props = INV, PROPS + (("QueryRight",) if edit else ())
     if only:
         inv = tuple(x for x in INV if x == only)
         props = tuple(x for x in PROPS if x == only)
-    return dict(spec="Spec", constants={"Envs": f"<- {envs}", "Deviations": f"<- {dev}", **H.CONSTANTS},
+    return dict(spec="Spec", constants={"Envs": f"<- {envs}", "Deviations": f"<- {dev}", **H.CONSTANTS,
+                                        "AllowEdit": "TRUE" if edit else "FALSE"},
                 invariants=inv, properties=props, view="View")
 
 
-TRACE_CFG = dict(spec="TraceSpec", constants={"Envs": "<- Envs0", "Deviations": "<- DevNone", **H.CONSTANTS},
+TRACE_CFG = dict(spec="TraceSpec", constants={"Envs": "<- Envs0", "Deviations": "<- DevNone", **H.CONSTANTS,
+                                              "AllowEdit": "FALSE"},
                  invariants=("TypeOK",))
 
 
@@ -56,7 +65,7 @@ def signature(tr, l):
     call = sum(1 for x in tr["ev"][:l] if x["ev"] == "addh")
     sig = {"event": e.get("ev"), "call": call, "out": e.get("out")}
     if e.get("ev") == "addh":
-        pre = tr["ev"][l - 2]
+        pre = next(x for x in reversed(tr["ev"][:l - 1]) if "bonds" in x)
         sig["atoms_added"] = len(e["atoms"]) - len(pre["atoms"])
         sig["nonfinite_new"] = any(not h["fin"] for h in e["newh"])
         nn = lambda c: sum(1 for b in pre["bonds"] if c in (b["a"], b["b"]))
@@ -74,9 +83,12 @@ def known_id(sig):
 def describe(tr, l, want=None):
     """Human-readable account of a rejected call: what appeared (measured) and, from TLC, where HAdd wants hydrogens."""
     e = tr["ev"][l - 1] if l and l <= len(tr["ev"]) else {}
+    if e.get("ev") == "query":
+        return (f"accessors of atom {e['i']} answered neighbours={sorted(e['nb'])} n_bonds={e['n']} valence={e['bv2'] / 2} "
+                f"(out={e['out']}): not what the current bonds say")
     if e.get("ev") != "addh":
         return f"event {l} ({e.get('ev')}) is not a step of HAdd"
-    pre = tr["ev"][l - 2]
+    pre = next(x for x in reversed(tr["ev"][:l - 1]) if "bonds" in x)
     per, wanted = {}, {}
     for h in e["newh"]:
         per.setdefault(h["c"], []).append(h)
@@ -149,6 +161,114 @@ def classify_violations(viol):
     return groups
 
 
+def sane(pre):
+    """Input sanity (the property quantifies over non-degenerate geometry, 0..3 neighbours): every atom with
+    neighbours has a clear centroid direction, three neighbours are pyramidal unless two of them are ring bonds."""
+    if pre["n_coords"] != len(pre["atoms"]) or any(b["a"] < 1 or b["b"] < 1 or b["a"] == b["b"] for b in pre["bonds"]):
+        return False
+    if not all(a["_fin"] for a in pre["atoms"]):
+        return False
+    for j, o in enumerate(H.offsets(pre), start=1):
+        nb = H.neighbours(pre["bonds"], j)
+        arom = sum(1 for b in pre["bonds"] if j in (b["a"], b["b"]) and b["bt"] == "Aromatic")
+        if len(nb) > 3 or len(set(nb)) != len(nb):
+            return False
+        if nb and o < 250 and not (len(nb) == 3 and arom >= 2):
+            return False
+        if len(nb) == 2:                      # two neighbours in (nearly) the same or opposite direction: no plane
+            r1, r2 = (pre["coords"][k - 1] - pre["coords"][j - 1] for k in nb)
+            den = float(np.linalg.norm(r1) * np.linalg.norm(r2))
+            if den < 1e-9 or abs(float(np.dot(r1, r2))) / den > 0.97:
+                return False
+    return True
+
+
+def make_history(seed, idx, tier):
+    """One seeded history on a real object: events, or None when an edit was not applicable / left an input outside
+    the property's domain (degenerate geometry, > 3 neighbours) / raised (editing is C05's business)."""
+    rnd = random.Random(f"c16h-{seed}-{idx}")
+    with warnings.catch_warnings():
+        warnings.simplefilter("ignore")
+        m, _ = G.make_random(seed, 100000 + idx, tier)
+        pre = H.snapshot(m)
+        if not sane(pre) or len(pre["atoms"]) < 2:
+            return None
+        evs = [H.mol_event(pre, H.hints_of(m))]
+        for i in rnd.sample(range(1, len(pre["atoms"]) + 1), min(len(pre["atoms"]), rnd.randint(1, 3))):
+            evs.append(H.query(m, i))
+        edits = []
+        try:
+            for _ in range(rnd.randint(1, 3)):
+                e = G.random_edit(m, rnd)
+                if e:
+                    edits.append(e)
+        except Exception:                                   # noqa: BLE001
+            return None
+        if not edits:
+            return None
+
+        def calls(pre):
+            evs.append(dict(H.mol_event(pre, H.hints_of(m)), edits=list(edits)))
+            for i in rnd.sample(range(1, len(pre["atoms"]) + 1), min(len(pre["atoms"]), rnd.randint(0, 2))):
+                evs.append(H.query(m, i))
+            e1, post = H.call(m, pre)
+            evs.append(e1)
+            if e1["out"] == "ok":
+                e2, post = H.call(m, post)
+                evs.append(e2)
+            return e1["out"] == "ok"
+        pre = H.snapshot(m)
+        if not sane(pre):
+            return None
+        n_before = len(pre["atoms"])
+        if calls(pre) and rnd.random() < 0.6:
+            try:
+                e = G.replace_hydrogen(m, rnd, n_before)
+            except Exception:                               # noqa: BLE001
+                e = None
+            if e:
+                edits[:] = [e]
+                pre = H.snapshot(m)
+                if sane(pre):
+                    calls(pre)
+    return evs
+
+
+def history_traces(tier, seed, n):
+    out, skipped = [], 0
+    for i in range(n):
+        evs = make_history(seed, i, tier)
+        if evs is None:
+            skipped += 1
+            continue
+        out.append({"tid": f"hist{i}", "ev": evs, "src": {"src": "hist", "seed": seed, "idx": i, "tier": tier}})
+    return out, skipped
+
+
+def history_model(ev):
+    """TLC: HAdd with histories (Query / Rewire before the calls) on the small table; returns the emitted edges."""
+    cfg = mc_cfg("EnvsH", edit=True)
+    cfg["action_constraints"] = ("Emit",)
+    r = model_check(ev, "MCHAdd", cfg, role="HAdd with histories (Query, Rewire) over EnvsH (+ emitted edges)", tag="c16hmc",
+                    workers=1, require_actions=("Build", "AddH"), timeout=900)
+    edges = [x for x in r.printed if isinstance(x, dict) and "act" in x]
+    kinds = {}
+    for e in edges:
+        kinds[e["act"]["act"]] = kinds.get(e["act"]["act"], 0) + 1
+    if not all(kinds.get(k) for k in ("build", "query", "rewire", "addh")):     # TLC names these disjuncts "Next" in -coverage
+        raise tlc.MachineryError(f"vacuity guard: history model took {kinds}")
+    return edges
+
+
+def history_replay(tier, seed, edges):
+    """H/A: every (state, action) pair of the TLC-enumerated histories replayed on real Molecules."""
+    g = replay.Graph(edges, key_fields_drop=DROP)
+    stats, viol, _, _, samples = replay.cover(g, H.HAddAdapter, seed=seed, max_path=14, stop_after=40)
+    if stats["unreached_pairs"] and not viol:
+        raise tlc.MachineryError(f"history replay left {stats['unreached_pairs']} (state, action) pairs unexercised")
+    return stats, viol, samples
+
+
 def random_traces(tier, seed, n):
     out, skipped = [], 0
     for i in range(n):
@@ -156,16 +276,7 @@ def random_traces(tier, seed, n):
             warnings.simplefilter("ignore")
             m, d = G.make_random(seed, i, tier)
         pre = H.snapshot(m)
-        off = H.offsets(pre)
-        # generator sanity (the property quantifies over non-degenerate geometry): every atom with 1..2 neighbours
-        # has a clear centroid direction, three neighbours are pyramidal unless two of them are ring bonds
-        bad = False
-        for j, o in enumerate(off, start=1):
-            nb = H.neighbours(pre["bonds"], j)
-            arom = sum(1 for b in pre["bonds"] if j in (b["a"], b["b"]) and b["bt"] == "Aromatic")
-            if nb and o < 250 and not (len(nb) == 3 and arom >= 2):
-                bad = True
-        if bad:
+        if not sane(pre):
             skipped += 1
             continue
         out.append({"tid": f"rand{i}", "ev": H.run_molecule(m), "src": {"src": "rand", "seed": seed, "idx": i, "tier": tier}})
@@ -209,21 +320,42 @@ def run(tier, seed, replay_path):
     if replay_path:
         return do_replay(replay_path)
     envs = "EnvsT" if tier == "thorough" else "EnvsQ"
-    # M + edges in one TLC run: invariants, action properties, coverage, and the Emit lines of every transition
+    # M + edges in one TLC run: invariants, action properties, coverage, and the Emit lines of every transition;
+    # meanwhile (threads) the history model and the non-vacuity runs: each deviation must violate its clause
     t0 = time.time()
     cfg = mc_cfg(envs)
     cfg["action_constraints"] = ("Emit",)
-    r = model_check(ev, "MCHAdd", cfg, role=f"HAdd clauses over the case table {envs} (+ emitted edges)", tag="c16mc",
-                    workers=1, require_actions=("Build", "AddH"), timeout=1500)
+    with ThreadPoolExecutor(7) as ex:
+        fh = ex.submit(history_model, ev)
+        fd = [ex.submit(expect_violation, "MCHAdd", mc_cfg("EnvsS", d, only=c), (c,), tag="c16dev", workers=1)
+              for d, c in DEVIATIONS]
+        fd.append(ex.submit(expect_violation, "MCHAdd", mc_cfg("EnvsH", "DevStale", only="CountRule", edit=True), ("CountRule",),
+                            tag="c16dev", workers=1))
+        r = model_check(ev, "MCHAdd", cfg, role=f"HAdd clauses over the case table {envs} (+ emitted edges)", tag="c16mc",
+                        workers=1, require_actions=("Build", "AddH"), timeout=1500)
+        for f in fd:
+            f.result()
+        hedges = fh.result()
     edges = [x for x in r.printed if isinstance(x, dict) and "act" in x]
     if len(edges) < 100:
         raise tlc.MachineryError("MCHAdd emitted no case table")
-    rep.note(f"model checked: {r.distinct} states, {len(edges)} edges, {time.time() - t0:.1f}s")
-    # non-vacuity: each deviation must violate the clause it is documented to break
-    with ThreadPoolExecutor(6) as ex:
-        list(ex.map(lambda dv: expect_violation("MCHAdd", mc_cfg("EnvsS", dv[0], only=dv[1]), (dv[1],),
-                                                tag="c16dev", workers=1), DEVIATIONS))
-    ev.set(deviations_caught=[f"{d} -> {c}" for d, c in DEVIATIONS])
+    rep.note(f"model checked: {r.distinct} states, {len(edges)} edges; history model {len(hedges)} edges; "
+             f"{len(fd)} deviations caught; {time.time() - t0:.1f}s")
+    ev.set(deviations_caught=[f"{d} -> {c}" for d, c in DEVIATIONS] + ["DevStale (history model) -> CountRule"])
+    # H/A: histories enumerated by TLC
+    t0 = time.time()
+    hstats, hviol, hsamples = history_replay(tier, seed, hedges)
+    ev.set(history_replay=hstats)
+    ev.add_samples([{"kind": "history path", "path": [{k: v for k, v in a.items() if k not in ("hs", "cls", "env")} for a in p]}
+                    for p in hsamples], 1)
+    rep.note(f"history replay: {hstats}, {time.time() - t0:.1f}s")
+    hgroups = {}
+    for v in hviol:
+        hgroups.setdefault((v["action"].get("act"), tuple(a.get("act") for a in v["path"])), []).append(v)
+    for (act, shape), vs in sorted(hgroups.items(), key=lambda kv: len(kv[0][1])):
+        v = vs[0]
+        rep.violation("replay-hadd", {**v, "group": {"history": list(shape), "paths": len(vs)}},
+                      what=f"{len(vs)} histories {'>'.join(shape)}: " + "; ".join(v["differences"][:2])[:500])
     # A
     t0 = time.time()
     row_traces, viol, stats, samples = table_replay(tier, seed, ev, rep, edges)
@@ -238,10 +370,15 @@ def run(tier, seed, replay_path):
                            + "; ".join(v["differences"][:2]))
     # B
     t0 = time.time()
-    n_rand = 3000 if tier == "thorough" else 300
+    n_rand = 3000 if tier == "thorough" else 200
     rnd_traces, skipped = random_traces(tier, seed, n_rand)
+    hist_traces, hskipped = history_traces(tier, seed, 4000 if tier == "thorough" else 400)
+    if len(hist_traces) < 50:
+        raise tlc.MachineryError(f"vacuity guard: only {len(hist_traces)} usable random histories")
     cdx_traces, unparsed = cdxml_traces()
-    all_traces = row_traces + rnd_traces + cdx_traces
+    if tier != "thorough":        # every row was already compared with its TLC edge; trace-validate every second one in quick
+        row_traces = [t for k, t in enumerate(row_traces) if k % 2 == seed % 2]
+    all_traces = row_traces + rnd_traces + hist_traces + cdx_traces
     verdicts, results, want = validate(all_traces, "c16tr")
     for rr in results[:1]:
         ev.add_tlc(rr, "trace validation (first batch)")
@@ -250,6 +387,7 @@ def run(tier, seed, replay_path):
                                "wall_s": round(sum(x.wall_s for x in results), 1)})
     bad = [t for t in all_traces if verdicts[t["tid"]][0] != "ACCEPT"]
     rep.note(f"traces: {len(row_traces)} table rows, {len(rnd_traces)} random molecules ({skipped} degenerate skipped), "
+             f"{len(hist_traces)} random histories ({hskipped} not applicable), "
              f"{len(cdx_traces)} CDXML fragments ({len(unparsed)} unparsable); {len(bad)} rejected; {time.time() - t0:.1f}s")
     reported = {}
     for t in bad:
@@ -259,7 +397,7 @@ def run(tier, seed, replay_path):
         if k:
             rep.known(k["id"], k["what"])
             continue
-        gkey = (t["src"]["src"], sig["call"], sig.get("atoms_added", 0) > 0, sig.get("nonfinite_new"),
+        gkey = (t["src"]["src"], sig["event"], min(sig["call"], 3), sig.get("atoms_added", 0) > 0, sig.get("nonfinite_new"),
                 sig.get("nonfinite_at_isolated"))
         reported.setdefault(gkey, []).append((t, l, sig))
     for gkey, items in sorted(reported.items(), key=lambda kv: str(kv[0])):
@@ -279,13 +417,18 @@ def run(tier, seed, replay_path):
         for i, a in enumerate(m0["atoms"], start=1):
             nb = sorted(b["bt"] for b in m0["bonds"] if i in (b["a"], b["b"]))
             centres.add((a["el"], a["fc"], abs(a["sp"]), m0["hints"][i - 1], tuple(nb), per.get(i, 0)))
-    ev.count(evaluations=stats["steps"] + sum(len(t["ev"]) - 1 for t in rnd_traces + cdx_traces),
-             distinct_nontrivial=stats["distinct_count_cases"] + len(centres), traces=len(all_traces))
+    hist_shapes = {tuple(x for e in t["ev"] for x in ([e["ev"]] + e.get("edits", []))) for t in hist_traces}
+    ev.count(evaluations=stats["steps"] + hstats["steps"] + sum(len(t["ev"]) - 1 for t in rnd_traces + cdx_traces)
+             + sum(1 for t in hist_traces for e in t["ev"] if e["ev"] != "mol"),
+             distinct_nontrivial=stats["distinct_count_cases"] + len(centres) + hstats["pairs_exercised"] + len(hist_shapes),
+             traces=len(all_traces))
     ev.set(rule="one evaluation = one real add_implicit_hydrogens() call whose result was compared with the TLC edge (table "
                 "rows) and/or validated by TLC as a step of HAdd (all); distinct_nontrivial = distinct local situations "
                 "(element, charge, |spin|, hint, multiset of bond types[, hydrogens received]) seen in the table rows plus "
                 "in the random/CDXML molecules",
-           hydrogens_placed_and_judged=n_h, random_molecules=len(rnd_traces), random_skipped_degenerate=skipped,
+           hydrogens_placed_and_judged=n_h, random_molecules=len(rnd_traces), random_histories=len(hist_traces),
+           random_histories_not_applicable=hskipped, distinct_history_shapes=len(hist_shapes),
+           accessor_answers_judged=sum(1 for t in hist_traces for e in t["ev"] if e["ev"] == "query"), random_skipped_degenerate=skipped,
            cdxml_fragments=len(cdx_traces), cdxml_unparsable=unparsed[:10], rejected_traces=len(bad),
            thresholds=H.CONSTANTS, exhaustive=False)
     acc = [t for t in rnd_traces if verdicts[t["tid"]][0] == "ACCEPT" and any(e["ev"] == "addh" and e["newh"] for e in t["ev"])]
@@ -299,6 +442,9 @@ def run(tier, seed, replay_path):
         f"centroid (plane, for three neighbours) is closer than {H.OFF_MIN} mA to the atom (flat drawings) only 'not towards' is required",
         "atoms bonded to a hapto coordination centre are outside the direction clause; the order of the new atoms/bonds is free",
         "covalent radii and groups in HAdd.tla are transcribed from the literature (Pyykko), not read from molli"]
+    ev.assumptions.append("histories: what the edits themselves do is not judged here (C05); the molecule is re-read through "
+                          "m.atoms / m.bonds / m.coords after the edits and HAdd decides accessor answers and hydrogens from "
+                          "that graph; histories whose edit raised or left > 3 neighbours / flat geometry are not used")
     return rep.finish()
 
 
@@ -317,7 +463,7 @@ def do_replay(path):
         print(json.dumps({"last_action": last["act"].get("act"), "outcome": last["outcome"], "observed": last["obs"],
                           "allowed_by_spec": doc.get("allowed")}, indent=1, default=str)[:6000])
         for a in doc.get("allowed") or []:
-            ok_out = all(last["outcome"].get(k) == a["act"][k] for k in ("out", "n") if k in a["act"])
+            ok_out = all(last["outcome"].get(k) == a["act"][k] for k in ("out", "n", "nb", "bv2") if k in a["act"] and k in last["outcome"])
             if ok_out and not replay.diff(a["obs"], last["obs"]):
                 print("replay: behaviour now matches the specification")
                 return 0
@@ -328,6 +474,11 @@ def do_replay(path):
         if src["src"] == "rand":
             m, _ = G.make_random(src["seed"], src["idx"], src["tier"])
             evs = H.run_molecule(m)
+        elif src["src"] == "hist":
+            evs = make_history(src["seed"], src["idx"], src["tier"])
+            if evs is None:
+                print("replay: this history is no longer generated (input outside the property's domain)")
+                return 0
         elif src["src"] == "cdxml":
             evs = H.run_molecule(G.make_cdxml(src["file"], src["kind"], src["key"]))
         elif src["src"] == "row":
